@@ -29,6 +29,10 @@
     sm       `ir.StatemachineContext._singleton`          (`enter` asserts it is None, `finish` clears it; nothing on the
              exception path on the pinned tree)
     loop     `IrGenerator._break_result/_continue_result` (try/finally)
+    scope    the `ModuleScope` of the back end: `_used_names` is a FRESH union of the class-level sets
+             `ModuleScope._vhdl_reserved | ModuleScope._additional_reserved` and of the option
+             `additional_reserved_names` of this compilation (object local to the compilation; the class-level sets
+             `G.reserved` are only read)
 
   plus the keyed state of `_Prefix` (`_current_entity`, `_existing_prefix`), the caches that only grow
   (`FunctionDefinition._known_definitions`, the `_SubTypes` type caches), the counter
@@ -45,11 +49,11 @@
 namespace CohdlVerif.C11
 
 inductive Kind where
-  | conv | arch | archReuse | blk | ctx | pfx | hdl | apply | ret | always | ircall | irapply | sm | loop
+  | conv | arch | archReuse | blk | ctx | pfx | hdl | apply | ret | always | ircall | irapply | sm | loop | scope
   deriving DecidableEq, Repr
 
 def Kind.all : List Kind :=
-  [.conv, .arch, .archReuse, .blk, .ctx, .pfx, .hdl, .apply, .ret, .always, .ircall, .irapply, .sm, .loop]
+  [.conv, .arch, .archReuse, .blk, .ctx, .pfx, .hdl, .apply, .ret, .always, .ircall, .irapply, .sm, .loop, .scope]
 
 /-- which repairs are applied (one flag per patch file) -/
 structure Cfg where
@@ -78,12 +82,16 @@ structure G where
   tyCache : List (Nat × Nat)          -- `_SubTypes` caches of the parametrised types
   ifCount : Nat                       -- `_prepare_ast_out.count`
   inl : List Nat                      -- `_inline_declared_entities`
+  reserved : List Nat                 -- class-level `ModuleScope._vhdl_reserved | _additional_reserved` (content)
   dyn : List (Nat × Nat)              -- per entity class: ports in `EntityInfo.ports` that were added while an
                                       -- architecture ran (`std.add_entity_port` / `add_port`); the class keeps them
                                       -- until `_discard_dynamic_ports()` at the start of its NEXT elaboration, which
                                       -- removes every port not in the snapshot `non_dynamic_ports`
 
-def G.init : G := ⟨fun _ => [], [], [], none, [], [], [], 0, [], []⟩
+/-- content of the class-level reserved-name sets at import time (names are numbers in the model) -/
+def reserved0 : List Nat := [900, 901, 902]
+
+def G.init : G := ⟨fun _ => [], [], [], none, [], [], [], 0, [], reserved0, []⟩
 
 def upd (s : Kind → List (List Nat)) (k : Kind) (v : List (List Nat)) : Kind → List (List Nat) :=
   fun j => if j = k then v else s j
@@ -105,6 +113,7 @@ inductive Act where
   | libs (xs : List Nat)           -- `_library_declaration`: iterates a Python `set` of strings
   | mem (x : Nat) (xs : List Nat)  -- membership test in a Python `set` (`_used_names`, `written_temporaries`, ..)
   | emit (t : Nat)
+  | declare (n : Nat)              -- `VhdlScope.declare(obj named n)`: renamed when n is a used name of the module scope
   | addPort (p : Nat)              -- `std.add_entity_port(self, Port..(name=p))` inside the running architecture
   deriving Repr
 
@@ -183,6 +192,7 @@ def enter (k : Kind) (a : List Nat) (n : Nat) (g : G) : Except Err (G × List To
     | none => .error .noEntity
     | some (g1, str) => .ok (push .pfx str g1, [], .pfx)
   | .sm => if g.s .sm ≠ [] then .error .nestedSM else .ok (push .sm a g, [], .sm)
+  | .scope => .ok (push .scope (g.reserved ++ a) g, [], .scope)
   | k => .ok (push k a g, [], k)
 
 /-- normal exit of a region -/
@@ -248,6 +258,10 @@ def act (cfg : Cfg) (perm : List Nat → List Nat) (a : Act) (g : G) : Except Er
   | .libs xs => .ok (g, [6 :: (if cfg.fixLib then isort (perm xs) else perm xs)])
   | .mem x xs => .ok (g, [[7, if (perm xs).contains x then 1 else 0]])
   | .emit t => .ok (g, [[8, t]])
+  | .declare n =>
+    match g.s .scope with
+    | used :: _ => .ok (g, [[10, n, if used.contains n then 1 else 0]])
+    | [] => .error .noEntity
   | .addPort p =>
     match g.s .arch with
     | fr :: _ =>
@@ -293,7 +307,7 @@ def parseKind : String → Option Kind
   | "conv" => some .conv | "arch" => some .arch | "blk" => some .blk | "ctx" => some .ctx
   | "pfx" => some .pfx | "hdl" => some .hdl | "apply" => some .apply | "ret" => some .ret
   | "always" => some .always | "ircall" => some .ircall | "irapply" => some .irapply
-  | "sm" => some .sm | "loop" => some .loop
+  | "sm" => some .sm | "loop" => some .loop | "scope" => some .scope
   | _ => none
 
 def parseNats (s : String) : Option (List Nat) :=
@@ -316,6 +330,7 @@ def parseEv (t : String) : Option Ev :=
     | ["T", n] => n.toNat?.map (fun n => .act (.ty n))
     | ["O", n] => n.toNat?.map (fun n => .act (.emit n))
     | ["A", n] => n.toNat?.map (fun n => .act (.addPort n))
+    | ["D", n] => n.toNat?.map (fun n => .act (.declare n))
     | ["L", a] => (parseNats a).map (fun a => .act (.libs a))
     | ["M", x, a] => do let x ← x.toNat?; let a ← parseNats a; pure (.act (.mem x a))
     | _ => none
@@ -333,7 +348,7 @@ def showRes : Res → String
 def kindName : Kind → String
   | .conv => "conv" | .arch => "arch" | .archReuse => "archReuse" | .blk => "blk" | .ctx => "ctx"
   | .pfx => "pfx" | .hdl => "hdl" | .apply => "apply" | .ret => "ret" | .always => "always"
-  | .ircall => "ircall" | .irapply => "irapply" | .sm => "sm" | .loop => "loop"
+  | .ircall => "ircall" | .irapply => "irapply" | .sm => "sm" | .loop => "loop" | .scope => "scope"
 
 /-- canonical snapshot: stack depth per piece (1/0 for the masked ones and ctx), prefix scope content,
     stale instantiations, prefix counters -/
@@ -343,6 +358,7 @@ def snapshot (g : G) : String :=
     kindName k ++ "=" ++ toString (if masked k || k == .ctx then (if n = 0 then 0 else 1) else n))
   " ".intercalate depth ++ " pfxs=" ++ ",".intercalate ((g.s .pfx).reverse.map showNats)
     ++ " inst=" ++ showNats g.inst ++ " reg=" ++ showNats g.reg ++ " inl=" ++ showNats g.inl
+    ++ " cont=" ++ (if g.reserved == reserved0 then "" else "reserved")
     ++ " dyn=" ++ ",".intercalate (g.dyn.reverse.map (fun q => toString q.1 ++ ":" ++ toString q.2))
 
 def parseCfg (s : String) : Option Cfg :=
